@@ -105,6 +105,16 @@ def mk_tb(h, hs, variant="ok", name="Tb"):
     if variant == "busport":
         tb = h.Module(name=name)
         tb.VSS = h.Port(width=2)
+    if variant == "bundleport":  # one scalar port and a two-signal bundle port: three scalar ports
+        tb.dport = h.Diff(port=True)
+    if variant == "bundleport1":  # one scalar port and a one-signal bundle port
+        one = h.Bundle(name="One")
+        one.x = h.Signal()
+        tb.bport = one(port=True)
+    if variant == "onlybundle":  # no scalar port, a two-signal bundle port
+        tb = h.Module(name=name)
+        tb.dport = h.Diff(port=True)
+        tb.VSS = h.Signal()
     vss = tb.VSS if variant != "noport" else tb.add(h.Signal(name="VSS"))
     g = vss if variant != "busport" else vss[0]
     tb.outp, tb.outn = h.Signal(), h.Signal()
@@ -387,15 +397,23 @@ def _one(item):
     return ("ok", dig.hexdigest()[:12])
 
 
-def _bad_tb(variant):
+def _bad_tb(item):
     import hdl21 as h
     import hdl21.sim as hs
 
+    variant, how = item if isinstance(item, (tuple, list)) else (item, "single")
     try:
         tb = mk_tb(h, hs, variant, "BadTb")
+        if how == "elaborated":
+            h.elaborate(tb)
         s = hs.Sim(tb=tb, attrs=[hs.Op()])
-        hs.to_proto(s)
-        return f"testbench variant {variant!r} accepted"
+        if how == "after_good":
+            hs.to_proto([hs.Sim(tb=mk_tb(h, hs, "ok", "GoodTb"), attrs=[hs.Op()]), s])
+        elif how == "before_good":
+            hs.to_proto([s, hs.Sim(tb=mk_tb(h, hs, "ok", "GoodTb"), attrs=[hs.Op()])])
+        else:
+            hs.to_proto(s)
+        return f"testbench variant {variant!r} ({how}) accepted"
     except Exception:
         return None
 
@@ -423,12 +441,13 @@ def run(ctx):
             if r.startswith("raised"):
                 what = "raised " + r.split(":")[1].strip()
             ctx.violation(dict(style=it[1], what=what, save_target=",".join(save_t)), dict(attrs=it[0], style=it[1], listing=it[2]), r)
-    for v in ("noport", "twoports", "busport"):
+    import itertools as _it
+    for v in _it.product(("noport", "twoports", "busport", "bundleport", "bundleport1", "onlybundle"), ("single", "elaborated", "after_good", "before_good")):
         r = _bad_tb(v)
         ctx.count(states=1, transitions=1, traces_validated_against_impl=1)
         ctx.fam("bad_testbenches", cases=1)
         if r:
-            ctx.violation(dict(style="-", what=r, save_target=""), dict(bad_tb=v), r)
+            ctx.violation(dict(style="-", what=r, save_target=""), dict(bad_tb=list(v)), r)
     ctx.sample(dict(attrs=sc[0], style="ctor", listing="single"))
     ctx.sample(dict(attrs=sc[-2], style="class", listing="distinct"))
     ctx.assume("SaveMode.SELECTED has no counterpart in the VLSIR schema and is not in the alphabet",
